@@ -170,7 +170,8 @@ def build_harness(name, cfg, harness_srcs, repo_files=None, san="asan", extra=()
     flags = cflags(cfg, san, opt) + list(extra)
     hs = [os.path.join(HARNESS, s) for s in harness_srcs]
     hdeps = hs + [p for p in _walk(HARNESS) if p.endswith(".h")]
-    key = file_hash(hdeps + objs, " ".join(flags + list(link)) + cc + tag)
+    # repo sources are part of the key as well: a harness may `#include` a repo .c file directly
+    key = file_hash(hdeps + objs + repo_sources(), " ".join(flags + list(link)) + cc + tag)
     d = os.path.join(CACHE, "bin-" + key)
     os.makedirs(d, exist_ok=True)
     exe = os.path.join(d, name)
